@@ -19,7 +19,8 @@ pub(crate) struct MemfsFile {
 impl MemfsFile {
     /// Returns the length of the file remaining from the current position
     pub(crate) fn len(&self) -> u64 {
-        self.data.len() as u64 - self.pos
+        // The position may legitimately be beyond the end of the data after a seek
+        (self.data.len() as u64).saturating_sub(self.pos)
     }
 
     /// Attempt to write the data to the data store
@@ -60,7 +61,7 @@ impl Clone for MemfsFile {
 // Implement the Read trait for the MemfsFile
 impl io::Read for MemfsFile {
     fn read(&mut self, buf: &mut [u8]) -> io::Result<usize> {
-        let pos = self.pos as usize;
+        let pos = cmp::min(self.pos, self.data.len() as u64) as usize;
 
         // Determine max data to read from the file
         let len = cmp::min(buf.len(), self.len() as usize);
@@ -79,12 +80,26 @@ impl io::Read for MemfsFile {
 // Implement the Seek trait for the MemfsFile
 impl io::Seek for MemfsFile {
     fn seek(&mut self, pos: io::SeekFrom) -> std::io::Result<u64> {
-        match pos {
-            io::SeekFrom::Start(offset) => self.pos = offset,
-            io::SeekFrom::Current(offset) => self.pos = (self.pos as i64 + offset) as u64,
-            io::SeekFrom::End(offset) => self.pos = (self.data.len() as i64 + offset) as u64,
+        let (base, offset) = match pos {
+            io::SeekFrom::Start(offset) => {
+                self.pos = offset;
+                return Ok(self.pos);
+            },
+            io::SeekFrom::Current(offset) => (self.pos, offset),
+            io::SeekFrom::End(offset) => (self.data.len() as u64, offset),
+        };
+
+        // Same contract as std::io::Cursor i.e. fail and leave the position alone
+        match base.checked_add_signed(offset) {
+            Some(pos) => {
+                self.pos = pos;
+                Ok(self.pos)
+            },
+            None => Err(io::Error::new(
+                io::ErrorKind::InvalidInput,
+                "invalid seek to a negative or overflowing position",
+            )),
         }
-        Ok(self.pos)
     }
 }
 
